@@ -1,0 +1,24 @@
+//go:build verif
+
+// Contracts for contract-based deductive verification (checked by /verif/govc).
+// This file is comment-only and compiled only with the build tag "verif".
+
+package sysfs
+
+// ---- C16: per-CPU discovery records the online / isolated flags of the kernel's CPU lists ---------------------
+// Reading and parsing sysfs files is outside the verified subset: readSysfsEntry is ASSUMED to write only
+// through the pointer it is given, getEnumeratedID is a deterministic function of the path, and the two
+// cache-discovery helpers (reached only after the CPU record has been stored) may change anything.
+//@ effect getEnumeratedID pure
+//@ effect std:path/filepath.Glob pure
+//@ assume-contract readSysfsEntry
+//@   modifies *ptr
+//@ assume-contract (*system).discoverCacheFromOverrides
+//@   modifies *
+//@ assume-contract (*system).discoverCache
+//@   modifies *
+
+//@ func (*system).discoverCPU tags=C16
+//@   requires sys != nil && sys.cpus != nil
+//@ assert[C16] in (*system).discoverCPU at "sys.cpus[cpu.id] = cpu": cpu != nil && cpu.id == getEnumeratedID(path) &&
+//@      cpu.online == sys.onlineCPUs.Has(cpu.id) && cpu.isolated == sys.isolatedCPUs.Has(cpu.id)
